@@ -90,8 +90,49 @@ def _nonempty_by_conditions(sc, bb, gname):
     return False
 
 
+def _nonempty_value(prog, sc, node, depth=0):
+    """is this polygon-valued node a non-empty vector on every path we can see?  vec![..] literal with elements; a call of a workspace
+    function all of whose returned expressions are; a parameter for which every caller passes such a value"""
+    if depth > 4:
+        return False, "too deep"
+    p = strip(node)
+    if p[0] == "agg" and p[1] == "vec":
+        return (len(p[3]) >= 1), "vec![..] of %d points" % len(p[3])
+    if p[0] == "call":
+        ids = prog.callee_index().get(p[1], ())
+        if len(ids) == 1:
+            f = prog.fns[next(iter(ids))]
+            fsc = Scope(prog, f)
+            from .cfgq import returned_nodes
+            rns = returned_nodes(f.body)
+            if not rns:
+                return False, "%s: no returned expression" % f.path
+            for _, rn in rns:
+                ok, why = _nonempty_value(prog, fsc, fsc._rw(rn), depth + 1)
+                if not ok:
+                    return False, "%s returns %s" % (f.path.split("::")[-1], why)
+            return True, "%s returns a non-empty vec![..]" % f.path.split("::")[-1]
+    if p[0] == "arg" and sc.parent is None and sc.fn.kind in ("fn", "assocfn"):
+        sites = _call_sites(prog, sc.fn.id)
+        if not sites:
+            return False, "parameter `%s` of %s, which has no caller in the workspace" % (p[2], sc.fn.path)
+        for (cf, cb, ct) in sites:
+            found = False
+            for (csc, cpar, cpb) in scopes_with_site(prog, prog.root_of(cf)):
+                if csc.fn.id != cf.id:
+                    continue
+                found = True
+                ok, why = _nonempty_value(prog, csc, csc.operand(ct["args"][p[1] - 1]), depth + 1)
+                if not ok:
+                    return False, "%s passes %s" % (prog.display(cf).split("::")[-1], why)
+            if not found:
+                return False, "caller %s not analysable" % cf.path
+        return True, "every caller of %s passes a non-empty vec![..]" % sc.fn.path.split("::")[-1]
+    return False, show(p)[:60]
+
+
 def _literal_polygons(prog, fn, depth=0, seen=None):
-    """(count of WallGeom literals, those whose polygon is not a non-empty vec literal) in fn and its workspace callees"""
+    """(count of WallGeom literals, those whose polygon is not shown non-empty) in fn and its workspace callees"""
     seen = seen if seen is not None else set()
     if fn.id in seen or depth > 3:
         return 0, []
@@ -102,10 +143,10 @@ def _literal_polygons(prog, fn, depth=0, seen=None):
             if s["s"] == "assign" and s["rv"]["r"] == "agg" and s["rv"].get("adt", "").endswith("::WallGeom"):
                 node = sc.rvalue(s["rv"])
                 fl = dict(zip(node[2], node[3]))
-                p = strip(fl.get("polygon", ("?",)))
                 n += 1
-                if not (p[0] == "agg" and p[1] == "vec" and len(p[3]) >= 1):
-                    bad.append("%s: polygon = %s" % (sc.fn.loc(s.get("ln")), show(p)[:60]))
+                ok, why = _nonempty_value(prog, sc, fl.get("polygon", ("?",)))
+                if not ok:
+                    bad.append("%s: polygon = %s" % (sc.fn.loc(s.get("ln")), why))
         for b, t in sc.body.calls():
             c = callee_of(t)
             if c:
@@ -262,3 +303,48 @@ def table_fed_calls(prog, seen, callee_id, table_name):
                 res.append((ok, fn.loc(t.get("ln")), prog.display(fn), descs))
             break
     return res
+
+
+FEW_CORNERS_TEXT = ("%s builds a bounding box from %d transformed point(s) and no loop over the polygon's points: the box of a turned planar figure needs every "
+                    "corner (at least the four corners of its local rectangle), so obstacles that are neither vertical nor axis-aligned get a box that does "
+                    "not contain them and rays that hit them are rejected early")
+
+
+def box_constructors(prog):
+    """who builds AABBs in bemodel.  Returns (unknown constructors, [(constructor, transformed points, loc)] with positive evidence of too few corners).
+    WallGeom::aabb and AABB::join are decided by C13's accumulator rule; AABB::new and Default only store their arguments."""
+    from .mir import callee_name, pl_local
+    makers = set()
+    for f_ in prog.fns.values():
+        if f_.crate != "bemodel" or f_.raw.get("impl_derived"):
+            continue
+        for b_, i_, s_ in f_.body.statements():
+            if s_["s"] == "assign" and s_["rv"]["r"] == "agg" and s_["rv"].get("adt", "").endswith("aabb::AABB"):
+                makers.add(prog.root_of(f_).path)
+        for b_, t_ in f_.body.calls():
+            if (callee_name(t_) or "").endswith("aabb::AABB::new"):
+                makers.add(prog.root_of(f_).path)
+    known = {m for m in makers if m.endswith(("aabb::AABB::new", "aabb::AABB::join", "as std::default::Default>::default")) or
+             ("Bounded for types::opaques::WallGeom" in m and m.endswith("::aabb"))}
+    unknown = sorted(makers - known)
+    few = []
+    for m in list(unknown):
+        for f_ in prog._by_path.get(m, []):
+            body_ = f_.body
+            loop_blocks = set()
+            for lp in body_.loops().values():
+                loop_blocks |= set(lp)
+            tp_in, tp_out = 0, 0
+            for b_, t_ in body_.calls():
+                nm_ = callee_name(t_) or ""
+                if "ops::Mul" in nm_ and len(t_["args"]) == 2:
+                    tys = [body_.local_ty(pl_local(a.get("m", a.get("c")))) if isinstance(a, dict) and ("m" in a or "c" in a) else "" for a in t_["args"]]
+                    if any("Isometry" in x or "Matrix" in x or "Transform" in x for x in tys[:1]) and "OPoint" in tys[1]:
+                        if b_ in loop_blocks:
+                            tp_in += 1
+                        else:
+                            tp_out += 1
+            if tp_in == 0 and 0 < tp_out < 4:
+                few.append((m, tp_out, f_.loc()))
+                unknown.remove(m)
+    return unknown, few
